@@ -174,6 +174,17 @@ Theorem C15_gate_next_call : forall calls next pre cf1 fa1 k1 cf fa o post,
   (o = None /\ ~ (cf1 + RECOMMENDATION_INTERVAL < cf /\ MIN_RECOMMENDATION <= fa)).
 Proof. exact gate_next_call. Qed.
 
+(* cadence under a lasting lead (n calls at consecutive frames c, c+1, ... with frames_ahead = fa >= 3, from a gate
+   state that a run with non-decreasing frames can be in: next < c + 60): a call raises a recommendation exactly
+   when its frame is a multiple of RECOMMENDATION_INTERVAL + 1 = 61 frames past the first frame above the gate
+   state - one recommendation per 61 frames, never fewer *)
+Theorem C15_gate_steady_cadence : forall n next c fa cf o,
+  MIN_RECOMMENDATION <= fa -> next < c + RECOMMENDATION_INTERVAL ->
+  In (cf, fa, o) (gate_run next (gate_steady c n fa)) ->
+  (o = Some fa /\ (cf - Z.max (next + 1) c) mod (RECOMMENDATION_INTERVAL + 1) = 0) \/
+  (o = None /\ (cf - Z.max (next + 1) c) mod (RECOMMENDATION_INTERVAL + 1) <> 0).
+Proof. exact gate_steady_cadence. Qed.
+
 (* and none is withheld *)
 Theorem C15_gate_emits : forall next cf fa, next < cf -> MIN_RECOMMENDATION <= fa ->
   gate_step next cf fa = Ok (cf + RECOMMENDATION_INTERVAL, Some fa).
@@ -246,6 +257,11 @@ Check C15_estimate : forall dbg L e fps lr lf cur,
   0 <= lr <= 1073741824 -> 0 <= lf <= 1073741824 ->
   ts_update_local_frame_advantage dbg (2 * L + e) fps lr lf cur =
     Ok (lr + L * fps / 1000 - lf).
+Example C15_ex_gate_steady :
+  map (fun e => fst (fst e)) (filter (fun e => match snd e with Some _ => true | None => false end)
+    (gate_run gate_init (gate_steady 1 200 4))) = [1; 62; 123; 184].
+Proof. vm_compute. reflexivity. Qed.
+
 Check C15_gate_spacing : forall calls next pre cf1 fa1 k1 post cf2 fa2 k2,
   gate_run next calls = pre ++ (cf1, fa1, Some k1) :: post ->
   In (cf2, fa2, Some k2) post ->
